@@ -136,7 +136,7 @@ func checkC01(c *Ctx) {
 					}
 				}
 				if f != nil && f.Pkg() != nil && strings.HasSuffix(f.Pkg().Path(), "pkg/syntax/zh") {
-					operandCalls[f.Name()]++
+					operandCalls[aliasName(f)]++
 				}
 				if o := identObj(info, x.Fun); o != nil && closureNames[o] {
 					// call of the local tail closure inside itself = iteration
@@ -306,7 +306,7 @@ func checkC01(c *Ctx) {
 							switch y := m.(type) {
 							case *ast.CallExpr:
 								if f := calleeFunc(einfo, y); f != nil {
-									calls = append(calls, f.Name())
+									calls = append(calls, aliasName(f))
 								}
 							case *ast.UnaryExpr:
 								if y.Op == token.NOT {
@@ -726,7 +726,7 @@ func leftLeaning(u *Universe, info *types.Info, fd *ast.FuncDecl, operand string
 			case *ast.AssignStmt:
 				if len(x.Lhs) == 1 && len(x.Rhs) == 1 {
 					if call, ok := x.Rhs[0].(*ast.CallExpr); ok {
-						if f := calleeFunc(info, call); f != nil && f.Name() == operand {
+						if f := calleeFunc(info, call); f != nil && aliasName(f) == operand {
 							rightObj = identObj(info, x.Lhs[0])
 						}
 					}
@@ -847,7 +847,7 @@ func checkLogicCombiner(c *Ctx, u *Universe, logicConsts map[string]int64) {
 						why = "result is not NewBool(…)"
 						continue
 					}
-					if f := calleeFunc(info, call); f == nil || f.Name() != "NewBool" {
+					if f := calleeFunc(info, call); f == nil || aliasName(f) != "NewBool" {
 						okAll = false
 						why = "result is not NewBool(…)"
 						continue
